@@ -38,6 +38,7 @@ struct ObjSpec {
     uint32_t val = 0;               // initial value (ints), abort code (T_USER)
     std::vector<uint8_t> bytes;     // domain / string content
     int aux = 0;                    // T_HBCONS: node id ; T_PARA*: index into World paras
+    int pgrp = -1; uint32_t poff = 0;   // referenced integer storage inside the RAM image of parameter group 'pgrp' (at byte offset 'poff') instead of a block of its own
     uint32_t key() const { return CO_KEY(idx, sub, flags); }
 };
 static inline int ot_width(OT t, uint8_t sub) {
